@@ -15,8 +15,8 @@
                node.py:193                 the final call orig_render(self, context, *args, **kwargs) = py_call
              impl_bind = py_call o validator o wsplit o resolve.
    The model is the code of /repo as it is after the fix commits 3c868d2 (no keyword default for positional-only
-   parameters), 8478320 (repeated non-identifier key refused in wrapper_render) and 81cf028 (name of a
-   positional-only parameter accepted as a key of **kwargs).  Definitions only; proofs in Bind/Proofs.v. *)
+   parameters), 8478320 (repeated non-identifier key refused in wrapper_render), 81cf028 (name of a
+   positional-only parameter accepted as a key of **kwargs) and 87d326f (non-str key of a spread mapping refused).  Definitions only; proofs in Bind/Proofs.v. *)
 From DJC Require Import Lib.Base.
 
 (* ---------- small dictionary / set helpers over str keys ---------- *)
@@ -112,16 +112,24 @@ Definition py_call (F : sig) (args : list N) (kws : kwl) : res binding :=
        end.
 
 (* ---------- tag arguments ---------- *)
-Inductive targ := TPos (v : N) | TKw (k : str) (v : N) | TSpreadL (vs : list N) | TSpreadD (kvs : kwl).
+(* key of a mapping that is spread into the tag ( ...d ): a str, None, or any other object that is not a str *)
+Inductive dkey := DStr (s : str) | DNone | DOther.
+Inductive targ := TPos (v : N) | TKw (k : str) (v : N) | TSpreadL (vs : list N) | TSpreadD (kvs : list (dkey * N)).
 Notation entry := (option str * N)%type (only parsing).
 
-(* template_tag.py:75-94 resolve_params (spreads become entries) *)
+Definition dkey_is_str (k : dkey) : bool := match k with DStr _ => true | _ => false end.
+Definition dkey_name (k : dkey) : str := match k with DStr s => s | _ => [] end.
+Definition keys_all_str (l : list targ) : bool :=
+  forallb (fun a => match a with TSpreadD kvs => forallb (fun kv => dkey_is_str (fst kv)) kvs | _ => true end) l.
+
+(* the arguments in order, spreads flattened: `...list` = its items as positional arguments, `...mapping` = its items
+   as keywords (every item of a mapping is a keyword whatever its key; the name of a non-str key is not used) *)
 Definition resolve1 (a : targ) : list entry :=
   match a with
   | TPos v => [(None, v)]
   | TKw k v => [(Some k, v)]
   | TSpreadL vs => map (fun v => (None, v)) vs
-  | TSpreadD kvs => map (fun kv => (Some (fst kv), snd kv)) kvs
+  | TSpreadD kvs => map (fun kv => (Some (dkey_name (fst kv)), snd kv)) kvs
   end.
 Definition resolve (l : list targ) : list entry := flat_map resolve1 l.
 
@@ -143,10 +151,18 @@ Definition py_bind_entries (sv cv : N) (F : sig) (es : list entry) : res binding
   if pos_after_kw es false then Err SyntaxError
   else if has_dup_keys (entries_kw es) then Err TypeError
   else py_call F (sv :: cv :: entries_pos es) (entries_kw es).
+(* f( **{None: 1} ) : TypeError "keywords must be strings" (after the compile-time order check) *)
 Definition py_bind (sv cv : N) (F : sig) (call : list targ) : res binding :=
-  py_bind_entries sv cv F (resolve call).
+  if pos_after_kw (resolve call) false then Err SyntaxError
+  else if keys_all_str call then py_bind_entries sv cv F (resolve call)
+  else Err TypeError.
 
 (* ---------- M: the implementation ---------- *)
+(* template_tag.py:68-100 resolve_params: spreads become entries; a mapping key that is not a str is refused
+   (lines 85-88, commit 87d326f) before anything else looks at the entries *)
+Definition resolve_params (l : list targ) : res (list entry) :=
+  if keys_all_str l then Ok (resolve l) else Err TypeError.
+
 Section Impl.
   Variable special : str -> bool.   (* `not key.isidentifier() or keyword.iskeyword(key)` *)
 
@@ -334,7 +350,10 @@ Section Impl.
         end
     end.
   Definition impl_bind (use_code : bool) (sv cv : N) (F : sig) (call : list targ) : res binding :=
-    impl_bind_entries use_code sv cv F (resolve call).
+    match resolve_params call with
+    | Err e => Err e
+    | Ok es => impl_bind_entries use_code sv cv F es
+    end.
 End Impl.
 
 
